@@ -559,3 +559,61 @@ Qed.
 Lemma spec_parse_wf_when_go s v p :
   parse_pypi s = Ok v -> spec_parse s = Some p -> c02_dom_width p = true -> pv_wf p.
 Proof. intros G S W. apply (parse_link s v p G S W). Qed.
+
+(* ---------- every version of the grammar is well formed ---------- *)
+Lemma first_word_pre_values i k r : first_word pre_words i = Some (k, r) -> 0 <= k <= 2.
+Proof.
+  unfold pre_words. cbn [first_word].
+  repeat match goal with |- context [ci_prefix ?w i] => destruct (ci_prefix w i) end;
+    intros H; inversion H; lia.
+Qed.
+
+Lemma sp_tagged_nonneg {X} (ws : list (bytes * X)) s x n r : sp_tagged ws s = (Some (x, n), r) -> 0 <= n.
+Proof.
+  unfold sp_tagged. destruct (first_word ws (opt_sep s)) as [[y s2]|]; [|discriminate].
+  destruct (span_digits (opt_sep s2)) as [d s4]. intros H; inversion H; subst. apply sp_int_nonneg.
+Qed.
+
+Lemma sp_release_wf f : forall s rel r, sp_release f s = Some (rel, r) -> nonneg rel /\ rel <> [].
+Proof.
+  induction f as [|f IH]; intros s rel r H; [discriminate|].
+  rewrite sp_release_unfold in H. destruct (span_digits s) as [[|c d] r0]; [discriminate|].
+  assert (One : nonneg [sp_int (c :: d)]) by (constructor; [apply sp_int_nonneg | constructor]).
+  destruct r0 as [|b r']; [inversion H; subst; split; [exact One | discriminate]|].
+  destruct (N.eqb b 46); [|inversion H; subst; split; [exact One | discriminate]].
+  destruct (sp_release f r') as [[l r'']|] eqn:E; inversion H; subst.
+  - destruct (IH _ _ _ E) as [N _]. split; [constructor; [apply sp_int_nonneg | exact N] | discriminate].
+  - split; [exact One | discriminate].
+Qed.
+
+Theorem spec_parse_wf s p : spec_parse s = Some p -> pv_wf p /\ s_release p <> [].
+Proof.
+  unfold spec_parse. destruct (is_ascii s); [|discriminate]. unfold spec_core.
+  destruct (sp_epoch (sp_strip_v (sp_strip s))) as [ep s1] eqn:Ep.
+  destruct (sp_release (S (length s1)) s1) as [[rel s2]|] eqn:Rl; [|discriminate].
+  destruct (sp_pre s2) as [pre s3] eqn:Pr. destruct (sp_post s3) as [post s4] eqn:Po.
+  destruct (sp_dev s4) as [dev s5] eqn:Dv.
+  destruct (sp_local s5) as [[loc [|x r]]|] eqn:Lc; try discriminate.
+  intros H; inversion H; subst p; clear H.
+  destruct (sp_release_wf _ _ _ _ Rl) as [Nr Ner].
+  split; [|exact Ner]. split; cbn [s_epoch s_release s_pre s_post s_dev s_local]; auto.
+  - unfold sp_epoch in Ep. destruct (span_digits (sp_strip_v (sp_strip s))) as [[|c d] r0]; [inversion Ep; lia|].
+    destruct r0 as [|b r']; [inversion Ep; lia|]. destruct (N.eqb b 33); inversion Ep; subst; [apply sp_int_nonneg | lia].
+  - intros k n E. subst pre. unfold sp_pre in Pr. split; [|eapply sp_tagged_nonneg; eauto].
+    unfold sp_tagged in Pr. destruct (first_word pre_words (opt_sep s2)) as [[k' s2']|] eqn:Fw; [|discriminate].
+    destruct (span_digits (opt_sep s2')) as [d s4']. inversion Pr; subst. eapply first_word_pre_values; eauto.
+  - intros n E. subst post. unfold sp_post in Po.
+    assert (Ex : forall t, (match sp_tagged post_words t with (Some (_, n0), r0) => (Some n0, r0) | (None, r0) => (None, r0) end)
+                           = (Some n, s4) -> 0 <= n).
+    { intros t Ht. destruct (sp_tagged post_words t) as [[[u m]|] r0] eqn:St; inversion Ht; subst.
+      eapply sp_tagged_nonneg; eauto. }
+    destruct s3 as [|c t]; [eapply Ex; eauto|].
+    destruct (N.eqb c 45); [|eapply Ex; eauto].
+    destruct (span_digits t) as [[|c0 d0] r0]; [eapply Ex; eauto|]. inversion Po; subst. apply sp_int_nonneg.
+  - intros n E. subst dev. unfold sp_dev in Dv.
+    destruct (sp_tagged dev_words s4) as [[[u m]|] r0] eqn:St; inversion Dv; subst. eapply sp_tagged_nonneg; eauto.
+  - intros l E. subst loc. unfold sp_local in Lc. destruct s5 as [|c t]; [discriminate|].
+    destruct (N.eqb c 43); [|discriminate].
+    destruct (sp_segs (S (length t)) t) as [[l' r']|] eqn:Sg; [|discriminate]. inversion Lc; subst.
+    destruct (sp_segs_inv _ _ _ Sg) as (_ & _ & _ & _ & _ & Ll & Ok). split; auto.
+Qed.
